@@ -177,6 +177,11 @@ func (f *Fosite) DefaultClientAuthenticationStrategy(ctx context.Context, r *htt
 		if err != nil {
 			return nil, errorsx.WithStack(err)
 		}
+		if expiry < time.Now().Unix() {
+			// An "exp" of zero passes token.Claims.Valid() (it is treated like an absent claim there), but a
+			// client assertion must carry an expiry that lies in the future.
+			return nil, errorsx.WithStack(ErrInvalidClient.WithHint("Claim 'exp' from 'client_assertion' must be set to a time in the future."))
+		}
 		if err := f.Store.SetClientAssertionJWT(ctx, jti, time.Unix(expiry, 0)); err != nil {
 			return nil, err
 		}
